@@ -218,16 +218,19 @@ func (a SortableMsgs) Less(i int, j int) bool {
 	aiLoc := ai.Data.Location
 	ajLoc := aj.Data.Location
 	if aiLoc == nil || ajLoc == nil {
-		return aiLoc == nil && ajLoc != nil
-	}
-	if aiLoc.File != ajLoc.File {
-		return aiLoc.File.Abs < ajLoc.File.Abs || (aiLoc.File.Abs == ajLoc.File.Abs && aiLoc.File.Rel < ajLoc.File.Rel)
-	}
-	if aiLoc.Line != ajLoc.Line {
-		return aiLoc.Line < ajLoc.Line
-	}
-	if aiLoc.Column != ajLoc.Column {
-		return aiLoc.Column < ajLoc.Column
+		if aiLoc != nil || ajLoc != nil {
+			return aiLoc == nil && ajLoc != nil
+		}
+	} else {
+		if aiLoc.File != ajLoc.File {
+			return aiLoc.File.Abs < ajLoc.File.Abs || (aiLoc.File.Abs == ajLoc.File.Abs && aiLoc.File.Rel < ajLoc.File.Rel)
+		}
+		if aiLoc.Line != ajLoc.Line {
+			return aiLoc.Line < ajLoc.Line
+		}
+		if aiLoc.Column != ajLoc.Column {
+			return aiLoc.Column < ajLoc.Column
+		}
 	}
 	if ai.Kind != aj.Kind {
 		return ai.Kind < aj.Kind
